@@ -8,7 +8,8 @@ RULE = ("random context-free grammars (1-4 variables, 1-3 terminals, 1-8 product
         "library's fresh names) x all words of length <=4 over the terminals plus words with an unknown symbol; "
         "contains / `in` / generate_epsilon are compared with the Lean model (normal form + CYK) and with the "
         "independent span-saturation membership oracle. Non-trivial: >=2 productions, one with a body of length >=2.")
-THEOREMS = ["Pfl.CFG.cfgMem_iff",
+THEOREMS = ["Pfl.CFG.contains_isSome",
+            "Pfl.CFG.cfgMem_iff",
             "Pfl.CFG.mem_langUpTo_iff",
             "Pfl.CFG.langUpTo_nodup",
             "Pfl.CFG.generateEpsilon_iff",
